@@ -395,7 +395,39 @@ def r6_witness(cx):
 
 r6_witness.only_configs = ("lib-all3",)
 
+def r9_losing_the_race_to_fill_a_slot_is_not_an_error(cx):
+    """'concurrent readers get exactly the stored bytes': several threads may find a once-slot empty, each prepare the
+    value and race to `set` it; exactly one wins and the others must go on with the value that is stored. The result of
+    `OnceLock::set` therefore never decides between success and an error (or a panic): no branch on it has one arm that
+    reaches an error exit and one that does not."""
+    F = cx.F
+    n = 0
+    for f in F.live_fns:
+        if "blocks" not in f or not re.search(r"^<?reader::|^<?bases::", f["name"]):
+            continue
+        if not any(call_is(blk["t"], r"sync::OnceLock::<.*>::set$") for blk in f["blocks"] if not blk.get("cleanup")):
+            continue
+        b = F.body(f)
+        bad_exits = b.error_blocks() | b.err_return_blocks() | b.panic_blocks()
+        for i, t in b.calls(r"sync::OnceLock::<.*>::set$"):
+            n += 1
+            deciding = []
+            for sw in range(b.n):
+                st = b.term(sw)
+                if st["k"] != "switch" or b.is_cleanup(sw) or ("call", i) not in b.origins(st["op"]):
+                    continue
+                arms = list(dict.fromkeys(st["targets"] + [st["otherwise"]]))
+                fates = {a: bool((b.reachable(a, avoid={sw}) | {a}) & bad_exits) for a in arms if b.term(a)["k"] != "unreachable"}
+                if len(set(fates.values())) > 1:
+                    deciding.append(b.ln(sw))
+            cx.ob("R9", "R9/%s/set-result-decides-nothing" % re.sub(r"<.*?>", "", f["name"]).split("::")[-1], not deciding, f,
+                  "the result of OnceLock::set at line %s does not separate an error exit from the normal one (branches that do: lines %s)" % (t.get("ln"), deciding), ln=t.get("ln"))
+    if n < 1:
+        raise AnchorLost("no OnceLock::set in the reader")
+
+
 RULES = [
+    ("R9", r9_losing_the_race_to_fill_a_slot_is_not_an_error, 1),
     ("R1", r1_publish, 6),
     ("R2", r2_no_realloc, 3),
     ("R3", r3_readers_below_published, 8),
